@@ -247,7 +247,7 @@ PROPS = {
                 rule='one evaluation = one seeded API history (W1) checked against the shadow ownership graph after every step; non-trivial = the history shared at least one item between two owners and released at least one item; distinct = distinct plan digests'),
     'C05': dict(level='fault_enumeration', phases=[('asan', None, 30000, 300000), ('asan', 3, 15000, 100000)],
                 rule='one evaluation = one CBOR sequence delivered over a fragmenting, closing connection to a cbor_load receiver (every retry checked), or one load scenario swept over every refused allocation k; non-trivial = at least one failing cbor_load call was observed and checked (NOTENOUGHDATA, MEMERROR, or a hard error); distinct = distinct plan digests'),
-    'C06': dict(level='fault_enumeration', phases=[('asan', None, 24000, 300000)],
+    'C06': dict(level='fault_enumeration', phases=[('asan', None, 24000, 160000)],
                 rule='one evaluation = one scenario (state built by a W1 prefix, one target operation) re-run once per refused allocation index k and once per fail-stop index k; non-trivial = the fault-free run made N>=1 requests and at least one injected refusal fired; distinct = distinct plan digests'),
     'C08': dict(level='exploration', phases=[('asan', None, 300000, 3000000)],
                 rule='one evaluation = one multi-connection streaming run; every cbor_stream_decode call in it is checked against the reference tokeniser; non-trivial = at least one fragment was delivered and decoded; distinct = distinct plan digests'),
